@@ -4,6 +4,7 @@
 package main
 
 import (
+	"strings"
 	"encoding/json"
 	"flag"
 	"fmt"
@@ -169,7 +170,16 @@ func runProto(rep *report) error {
 					rng := rand.New(rand.NewSource(*fSeed*1000003 + int64(hash(s.ID))))
 					err := inst.RunProto(s, tw, rng)
 					mu.Lock()
-					if err != nil {
+					if err != nil && strings.Contains(err.Error(), "mint: connect flow ended with") && inst.P.Alive() {
+						// the gateway refused to hand this user a connection file: the tunnel part of the script cannot be run.
+						// That is the gateway's doing (judged by the download checks), not a failure of the driver - counted.
+						if rep.Extra == nil {
+							rep.Extra = drv.M{}
+						}
+						n, _ := rep.Extra["unminted"].(int)
+						rep.Extra["unminted"] = n + 1
+						rep.Done++
+					} else if err != nil {
 						rep.Errors = append(rep.Errors, s.ID+": "+err.Error())
 					} else {
 						rep.Done++
